@@ -245,7 +245,7 @@ class C03(ServerProp):
         i = 0
         for name in self.names(tier, rng):
             for kind in ("rrq", "wrq"):
-                flags = rng.choice(["-", "o", "x", "xo", "s", "so", "sxo", "k", "1", "v", "sxv"])
+                flags = rng.choice(["-", "o", "x", "xo", "s", "so", "sxo", "k", "1", "v", "sxv", "t", "ot", "xt", "sxot"])
                 d = rq(kind, name)
                 if len(d) > 510:
                     continue
@@ -305,6 +305,7 @@ class C06(ServerProp):
         flagsets = ["".join(x) for x in itertools.product(["", "r"], ["", "o"], ["", "k"], ["", "s"], ["", "x"])]
         flagsets += [f + "v" for f in flagsets[::3]]      # the same cells with the server on ::1
         flagsets += [f + "p" for f in flagsets[1:32:4]]   # the client's transfer identifier is a port <= 1024 (any port is a valid TID)
+        flagsets += [f + "t" for f in flagsets[2:32:4]]   # the served directories are configured with a trailing separator
         names = [b"a", b"new", b"sub/b", b"sub/new", b"nodir/x", b"long", b"short", b"/a", b"sub\\b", b"empty", b"sub/empty",
                  # letters whose code point, cut to one byte, is '/' or '\\' (U+042F, U+015C, U+4E5C): they are letters, not separators
                  "sub\u042fb".encode(), "\u042fa".encode(), "sub\u015cb".encode(), "\u4e5clong".encode()]
